@@ -106,6 +106,14 @@ var respPlaces = []respPlace{
 			"page.tw":            "PAGE-SENTINEL-before @component(\"~card\")@slot" + sentinelStmts(n, i, fault) + "@end@slot(\"foot\")PAGE-SENTINEL-foot@end@end PAGE-SENTINEL-after",
 		}, "page"
 	}},
+	{"inside-slot-body-under-crlf", func(n, i int, fault string) (map[string]string, string) {
+		// CRLF line ends; the slots stand on the lines after the component, inside a branch whose @else would fail
+		return map[string]string{
+			"components/card.tw": "<card>PAGE-SENTINEL-comp @slot @slot(\"foot\")</card>",
+			"page.tw": "PAGE-SENTINEL-before\r\n@if(rows)\r\n@component(\"~card\")\r\n\t@slot\r\n" + strings.ReplaceAll(sentinelStmts(n, i, fault), "\n", "\r\n") +
+				"@end\r\n@slot(\"foot\")\r\nPAGE-SENTINEL-foot\r\n@end\r\n@end\r\n@else\r\n{{ MISSING_IDENT_SENTINEL }}\r\n@end\r\nPAGE-SENTINEL-after\r\n",
+		}, "page"
+	}},
 	{"inside-component-argument", func(n, i int, fault string) (map[string]string, string) {
 		expr := argExprOf(fault)
 		if i < 0 {
